@@ -68,6 +68,10 @@ fn main() {
             Target { integ, open }
         })
         .collect();
-    c35::run(&mut ctx, &rt, targets, &not_covered);
+    if let Err(panic) = vcore::drive::catch(std::panic::AssertUnwindSafe(|| c35::run(&mut ctx, &rt, targets, &not_covered))) {
+        // nothing may end a check silently (the panic hook records the message instead of printing it)
+        eprintln!("INCONCLUSIVE: panic outside a generated case: {}", panic);
+        std::process::exit(2);
+    }
     ctx.finish();
 }
